@@ -143,18 +143,27 @@ func validatePolyNotInsidePoly(p1, p2 indexedLines) error {
 	for j := range p2.lines {
 		// Find intersection points.
 		var pts []XY
+		var overlapErr error
 		p1.tree.RangeSearch(p2.lines[j].box(), func(i int) error {
 			inter := p1.lines[i].intersectLine(p2.lines[j])
 			if inter.empty {
 				return nil
 			}
 			if inter.ptA != inter.ptB {
-				panic(fmt.Sprintf("already established that boundaries only "+
-					"intersect at points, but got: %v", inter))
+				// The caller has already established that the boundaries only
+				// intersect at points. But the two calculations can disagree
+				// due to rounding when coordinates have extreme magnitudes
+				// (e.g. 1e305). This can be triggered by untrusted input, so
+				// is reported as a validation failure rather than a panic.
+				overlapErr = violatePolysMultiTouch.errAtXY(inter.ptA)
+				return rtree.Stop
 			}
 			pts = append(pts, inter.ptA)
 			return nil
 		})
+		if overlapErr != nil {
+			return overlapErr
+		}
 		if len(pts) == 0 {
 			continue
 		}
